@@ -1,11 +1,13 @@
 #!/usr/bin/env python3
 """tools/mutate_enc.py <C01|C02|C03> [--max N] [--n CASES] [--files Model/Enc.lean,...] [--seed K]
+                          [--lines 120-130,184 --merge]   (re-run exactly the mutants of those source lines of the
+                          first file and merge their new status into the existing mutation/<Cxx>.json)
 
 Fast variant of tools/mutate_model.py for the codec properties (same mutation operators, same result file
 format `mutation/<Cxx>.json`).  mutate_model.py rebuilds `opcua_model` of the whole project for every mutant
 (4–5 min per mutant here: Model/Enc.lean is below ~15 modules incl. the 900-line generated schemas); this tool
 builds a minimal Lake project (Common, the three codec model files, the codec driver `Drv/EncDrv.lean` and a
-tiny Main) in `mutation/.fast-<Cxx>/` so that a mutant costs about a minute.  Mutants of `Model/Enc.lean` and
+tiny Main) in `mutation/.scratch-fast-<Cxx>-*/` so that a mutant costs about a minute.  Mutants of `Model/Enc.lean` and
 `Model/EncTcp.lean` are run against a stub of `Generated/Schemas.lean` on the ops that do not need the schemas
 (everything except sdec / srt / msg); mutants of `Model/EncSchema.lean` use the real schemas and all ops.
 
@@ -87,13 +89,20 @@ def run(scratch, ops):
 def main():
     args = sys.argv[1:]
     pid = args[0]
-    mx, n, files, seed = 40, None, ["Model/Enc.lean", "Model/EncTcp.lean", "Model/EncSchema.lean"], 0
+    mx, n, files, seed, only, merge = 40, None, ["Model/Enc.lean", "Model/EncTcp.lean", "Model/EncSchema.lean"], 0, None, False
     i = 1
     while i < len(args):
         if args[i] == "--max": mx = int(args[i + 1]); i += 2
         elif args[i] == "--n": n = int(args[i + 1]); i += 2
         elif args[i] == "--files": files = args[i + 1].split(","); i += 2
         elif args[i] == "--seed": seed = int(args[i + 1]); i += 2
+        elif args[i] == "--merge": merge = True; i += 1
+        elif args[i] == "--lines":
+            only = set()
+            for part in args[i + 1].split(","):
+                a, _, b = part.partition("-")
+                only.update(range(int(a), int(b or a) + 1))
+            i += 2
         else: i += 1
     spec = json.load(open(f"{ROOT}/props/{pid}.json"))
     n = n or spec.get("quick_n", 1000)
@@ -111,15 +120,18 @@ def main():
                     if lines[li][m.start():m.end()] != m.group(0):
                         continue
                     mutants.append((f, li, m.start(), m.end(), rep, m.group(0)))
-    step = max(1, len(mutants) // mx)
-    chosen = mutants[seed % step::step][:mx]
+    if only is not None:
+        chosen = [m for m in mutants if m[0] == files[0] and m[1] + 1 in only]
+    else:
+        step = max(1, len(mutants) // mx)
+        chosen = mutants[seed % step::step][:mx]
     print(f"{len(mutants)} candidate mutants, running {len(chosen)}", flush=True)
     results, t0 = [], time.time()
     for stub in (True, False):
         group = [c for c in chosen if (c[0] != "Model/EncSchema.lean") == stub]
         if not group:
             continue
-        scratch = f"{ROOT}/mutation/.fast-{pid}-{'core' if stub else 'schema'}"
+        scratch = f"{ROOT}/mutation/.scratch-fast-{pid}-{'core' if stub else 'schema'}"
         setup(scratch, stub)
         sel = [k for k, o in enumerate(ops) if not stub or o.split(" ")[0] not in ("sdec", "srt", "msg")]
         my_ops = [ops[k] for k in sel]
@@ -147,6 +159,13 @@ def main():
                             "source": lines[li].strip()[:160]})
             print(f"[{len(results)}/{len(chosen)}] {status:9s} {f}:{li + 1}  `{orig.strip()}` -> `{rep.strip()}`   {lines[li].strip()[:100]}", flush=True)
         shutil.rmtree(scratch, ignore_errors=True)
+    if merge and os.path.exists(f"{ROOT}/mutation/{pid}.json"):
+        prev = json.load(open(f"{ROOT}/mutation/{pid}.json"))["mutants"]
+        key = lambda r: (r["file"], r["line"], r["from"], r["to"], r["source"])
+        newk = {key(r): r for r in results}
+        for r in newk.values():
+            r["rerun_after_generator_change"] = True
+        results = [newk.pop(key(r), r) for r in prev] + list(newk.values())
     summ = {s: sum(1 for r in results if r["status"] == s) for s in ("killed", "survived", "stillborn")}
     os.makedirs(f"{ROOT}/mutation", exist_ok=True)
     json.dump({"property": pid, "tool": "tools/mutate_enc.py (fast variant of mutate_model.py, same operators)",
